@@ -85,6 +85,10 @@ def _module_attr(n):
     return isinstance(n, ast.Name) and n.id in _IMPORTS
 
 
+def _is_exc_info(n):
+    return isinstance(n, ast.Call) and dump(n.func) == "sys.exc_info" and not n.args and not n.keywords
+
+
 def expr_may_raise(e):
     """Conservative default: an expression may raise if it contains a call (other than the total
     builtins isinstance/type/callable/id), a subscript, an attribute load on a value other than self
@@ -103,6 +107,17 @@ def expr_may_raise(e):
                 return True        # Logger.makeRecord raises KeyError for an `extra` key that names a LogRecord attribute
             for sub in ast.walk(n.func):
                 skip.add(id(sub))
+            continue
+        if isinstance(n, ast.Subscript) and _is_exc_info(n.value) and isinstance(n.slice, ast.Constant) and n.slice.value in (0, 1, 2, -1, -2, -3):
+            skip.update(id(sub) for sub in ast.walk(n))      # sys.exc_info()[k]: a tuple of three
+            continue
+        if _is_exc_info(n):
+            skip.update(id(sub) for sub in ast.walk(n))
+            continue
+        if isinstance(n, ast.Attribute) and n.attr in ("__name__", "__qualname__") and isinstance(n.value, ast.Call) and \
+                isinstance(n.value.func, ast.Name) and n.value.func.id == "type" and len(n.value.args) == 1 and not n.value.keywords:
+            skip.add(id(n.value.func))      # type(x).__name__: every class has a name
+            skip.add(id(n.value))
             continue
         if isinstance(n, (ast.Call, ast.Subscript, ast.BinOp, ast.Yield, ast.YieldFrom, ast.Await,
                           ast.Starred, ast.JoinedStr)):
